@@ -128,6 +128,7 @@ LINKS = {
                      "Rtr.CLink.Footer.convFooter_eq_swapWords", "Rtr.CLink.Footer.footer_C_eq_model", "Rtr.CLink.Footer.footer_C_eq_model_ipv6",
                      "Rtr.CLink.Footer.footer_C_eq_model_error_to_network", "Rtr.CLink.Footer.footer_C_eq_model_error_to_host",
                      "Rtr.CLink.Footer.header_C_eq_model", "Rtr.CLink.Footer.to_network_C_eq_model", "Rtr.CLink.Footer.footer_to_host_C_eq_model",
+                     "Rtr.CLink.Footer.send_receive_roundtrip_C",
                      "Rtr.CLink.tr_send_all_eq", "Rtr.CLink.tr_send_all_of_world", "Rtr.CLink.tr_send_all_chunks", "Rtr.CLink.tr_send_all_timeouts"],
         "functions": ["rtr_send_error_pdu", "rtr_send_pdu", "rtr_send_error_pdu_from_host", "rtr_receive_pdu", "rtr_send_serial_query", "rtr_send_reset_query", "lrtr_convert_long", "lrtr_convert_short", "rtr_pdu_convert_header_byte_order", "rtr_pdu_header_to_host_byte_order",
                       "rtr_pdu_convert_footer_byte_order", "rtr_pdu_to_network_byte_order", "rtr_pdu_footer_to_host_byte_order", "tr_send_all"],
